@@ -34,14 +34,17 @@ PROPERTY = "C32"
 LEVEL = "model_checking"
 TERMS = ["a", "b"]
 NONTERMS = ["S", "A"]
-QUICK_SAMPLE = 1100
+QUICK_SAMPLE = 900
+THOROUGH_SAMPLE3 = 9000
+THOROUGH_SAMPLE4 = 2500
 BOUNDS = {
     "quick": {"grammars": f"fixed list of {{n_fixed}} + all with <= 2 productions and right-hand sides <= 2 + seeded sample of "
                           f"{QUICK_SAMPLE} of the <= 3-production space (VERIF_SEED)",
               "productions": "<= 3 (fixed list: <= 4)", "rhs_length": "<= 3", "terminals": 2, "nonterminals": 2,
               "epsilon_productions": "allowed", "token_sequence_length": "0..5 (symbolic length, symbolic kinds)"},
-    "thorough": {"grammars": "fixed list + ALL grammars with <= 3 productions and right-hand sides <= 2, + seeded samples of "
-                             "<= 3 productions / rhs <= 3 and of 4 productions / rhs <= 3",
+    "thorough": {"grammars": "fixed list + ALL 2652 grammars with <= 3 productions and right-hand sides <= 2, + seeded samples of "
+                             f"{THOROUGH_SAMPLE3} of the 207915 grammars with 2..3 productions / rhs <= 3 and of {THOROUGH_SAMPLE4} "
+                             "grammars with 4 productions / rhs <= 3 (VERIF_SEED)",
                  "productions": "<= 4", "rhs_length": "<= 3", "terminals": 2, "nonterminals": 2,
                  "epsilon_productions": "allowed", "token_sequence_length": "0..6 (symbolic length, symbolic kinds)"},
 }
@@ -90,7 +93,14 @@ FIXED = [
     [["S", "ASA"], ["S", "b"], ["A", "a"], ["A", ""]],
     [["S", "AA"], ["A", "aA"], ["A", "b"]],            # textbook canonical LR(1) example
     [["S", "aAb"], ["S", "aa"], ["A", "a"], ["A", ""]],
-    [["S", "Aa"], ["S", "bAb"], ["S", "ba"], ["A", "a"]],   # LR(1) but reduce/reduce under LALR merging of cores? (2 NT variant)
+    [["S", "Aa"], ["S", "bAb"], ["S", "ba"], ["A", "a"]],
+    [["S", "ASa"], ["S", ""], ["A", "b"]],             # look-ahead of A must see through the nullable S
+    [["S", "AA"], ["A", ""]],
+    [["S", "bASa"], ["S", ""], ["A", ""]],
+    [["S", "aAS"], ["S", "b"], ["A", ""]],
+    [["S", "Sba"], ["S", "Abb"], ["S", "a"], ["A", "a"]],   # unambiguous, LR(2): genuine reduce/reduce conflict
+    [["S", "Sba"], ["S", "Abb"], ["S", ""], ["A", ""]],
+    [["S", "Aaa"], ["S", "aab"], ["A", "a"]],          # unambiguous, LR(2): shift/reduce
 ]
 BOUNDS["quick"]["grammars"] = BOUNDS["quick"]["grammars"].format(n_fixed=len(FIXED))
 
@@ -154,6 +164,8 @@ class LrHarness(Harness):
     max_paths = 4000
     max_decisions = 200
     step_bound = 400
+    timeout_ms = 120000          # queries are tiny; generous wall-clock limits only guard against starvation
+    prove_timeout_ms = 300000    # on a shared machine (z3 timeouts are wall-clock)
 
     def __init__(self, spec, L):
         self.spec = [[str(l), str(r)] for l, r in spec]
@@ -211,7 +223,9 @@ class LrHarness(Harness):
             self._built = ("B" if (pb.shift_reduce and not pb.other) else "A", parser)
         except ParserGenerationException as e:
             self._built = ("C", str(e)[:100])
-        return self._built
+        except Exception as e:      # noqa: undocumented builder failure; cached so that every re-run of this
+            self._built = ("X", e)  # harness sees the same outcome (table construction iterates over sets of
+        return self._built          # id-hashed objects, i.e. its order may differ between two constructions)
 
     def _tick(self):
         self._steps += 1
@@ -227,6 +241,8 @@ class LrHarness(Harness):
         cls, parser = self.build()
         if cls == "C":
             return dict(cls="C")
+        if cls == "X":
+            raise parser
         from ppci.lang.tools.baselex import BaseLexer
         from ppci.lang.tools.common import ParserException
         from ppci.lang.common import Token, SourceLocation
@@ -360,8 +376,8 @@ def select(tier, seed):
     L = 6
     ex = [g for n in (1, 2, 3) for g in grammar_space(n, 2)]
     pool3 = [g for n in (2, 3) for g in grammar_space(n, 3)]
-    s3 = rnd.sample(pool3, min(9000, len(pool3)))
-    s4 = _sample4(rnd, 2500)
+    s3 = rnd.sample(pool3, min(THOROUGH_SAMPLE3, len(pool3)))
+    s4 = _sample4(rnd, THOROUGH_SAMPLE4)
     return [("fixed", FIXED, L), ("all3x2", ex, L), ("sample3x3", s3, L), ("sample4x3", s4, L)]
 
 
